@@ -311,7 +311,7 @@ func parseFnHeader(s string) (name string, params []Param, ret string, body stri
 }
 
 var clauseKeywords = []string{"requires", "ensures", "modifies", "loop", "use", "pure", "inline", "allow-panic",
-	"check-overflow", "ghost", "bind", "implements", "after", "no-recursion", "function", "assume", "allow-kind", "trusted", "before", "fresh", "no-safety", "params", "results", "induction", "axiom"}
+	"check-overflow", "ghost", "bind", "implements", "after", "no-recursion", "function", "assume", "allow-kind", "at", "trusted", "before", "fresh", "no-safety", "params", "results", "induction", "axiom"}
 
 func startsWithKeyword(s string) (string, string, bool) {
 	for _, k := range clauseKeywords {
@@ -687,6 +687,21 @@ func (sf *SpecFile) addItem(it *rawItem, pkg string) error {
 					return err
 				}
 				fs.Binds = append(fs.Binds, CallBind{Callee: m[1], Ordinal: n, Name: m[3], Expr: e})
+			case "at":
+				m := regexp.MustCompile(`^return\s*(\d*)\s*:\s*assert\s+(.*)$`).FindStringSubmatch(l.text)
+				if m == nil {
+					return fmt.Errorf("bad at clause %q", l.text)
+				}
+				c, err := parseClause(m[2], l.line)
+				if err != nil {
+					return err
+				}
+				ord := -1
+				if m[1] != "" {
+					n, _ := strconv.Atoi(m[1])
+					ord = -1 - n // return ordinal n is stored as -(n+1)
+				}
+				fs.AfterLoop = append(fs.AfterLoop, CallAssert{Ordinal: ord, Expr: c.Expr, Src: c.Src, Tags: c.Tags})
 			case "after":
 				m := regexp.MustCompile(`^loop\s+(\d+)\s*:\s*assert\s+(.*)$`).FindStringSubmatch(l.text)
 				if m == nil {
